@@ -74,8 +74,22 @@ def compare(cx: Cx, ob: Ob, fname: str, which: str, required: bool = True) -> No
         return
     fn = mod.functions[fname]
     cx.functions_analysed.add(fn.qualname)
+    from ..analyses.relang import witness
+    from ..analyses.strlang import Raises
+
     try:
         got = sl.lang_true(fname)
+    except Raises as e:
+        PREFIX, REF, CURIE = reference_languages(sl)
+        ref = {"PREFIX": PREFIX, "REF": REF, "CURIE": CURIE}[which]
+        w = witness(inter(e.lang, ref))
+        if w is not None:
+            word = sl.alpha.word(w)
+            ob.site(f"{fn.where} {fn.qualname}", "an unpacking on the way to the answer can fail")
+            ob.violate(fn.qualname, fn.where, f"{fname} raises for {word!r}, which the documented grammar ({which}) accepts: {e}", witness=f"{word!r} (code points {[hex(ord(c)) for c in word]})", detail="raises")
+        else:
+            ob.undecide(f"{fname}: {e}")
+        return
     except Unsupported as e:
         ob.undecide(f"{fname}: {e}")
         return
